@@ -107,3 +107,17 @@ Theorem c20_float_classified : forall sp,
   /\ float_decimal (floatsp_src sp) = Some (floatsp_decimal sp).
 Proof. exact float_classified. Qed.
 Print Assumptions c20_float_classified.
+
+(** The json filter emits JSON that decodes to its input, for every JSON-like
+    value (null, booleans, integers of any size, strings of Unicode scalar
+    values, lists, dicts with string keys, nested to any depth). *)
+Theorem c20_json_roundtrip : forall v, jv_ok v -> json_decode (json_filter v) = Some v.
+Proof. exact json_roundtrip. Qed.
+Print Assumptions c20_json_roundtrip.
+
+(** Non-vacuity for ALL strings: every string of scalar values >= U+0008 has a
+    valid spelling (its JSON text, minus the quotes, is one). *)
+Theorem c20_spelling_exists : forall s,
+  str_ok s -> Forall (fun c => 8 <= c) s -> Enc DQ s (json_body s).
+Proof. exact enc_exists. Qed.
+Print Assumptions c20_spelling_exists.
